@@ -35,7 +35,8 @@ def close_case(c):
     for k, o in enumerate(ops):
         if o == [3] and strong > 0: strong += 1
         elif o == [4] and strong > 0: strong -= 1
-        elif len(o) == 6 and o[0] == 9 and k == 0 and o[5] in (0, 1) and 0 <= o[1] <= 63 and 0 <= o[2] <= 9 and o[3] in (0, 1) and 0 <= o[4] <= 3:
+        elif len(o) in (6, 7) and o[0] == 9 and k == 0 and o[5] in (0, 1) and 0 <= o[1] <= 63 and 0 <= o[2] <= 9 and o[3] in (0, 1) and 0 <= o[4] <= 3 \
+                and (len(o) == 6 or 0 <= o[6] <= 3):
             strong = 1 if o[5] == 1 else 0
         elif len(o) == 3 and o[0] == 6 and strong > 0 and 0 <= o[1] <= 2 and not (void and o[1] != 0) and abs(o[2]) <= 100000: nheld += 1
         elif o == [7] and nheld > 0: nheld -= 1
@@ -135,10 +136,15 @@ class G:
 
 def gen_random(rng, engine, name, nops):
     g = G(rng, engine)
-    if rng.random() < 0.12:      # the case starts with a listener on signal<T>::hook_up
+    if rng.random() < 0.15:      # the case starts with a listener on signal<T>::hook_up
         keep = rng.choice([1, 1, 1, 0])
-        g.ops.append([9, g.fresh(), rng.choice([0, 0, 2]), rng.choice([0, 0, 1]), rng.choice([0, 1, 2]), keep])
+        # the registration function emits n values itself; inside a coroutine more than one would be the known overrun
+        # (the result of a call made inside fn is discarded), and one followed by the drop as well
+        n = rng.choice([0, 1, 2, 3]) if not g.coro else (rng.choice([0, 1]) if keep else 0)
+        op = [9, g.fresh(), rng.choice([0, 0, 2]), rng.choice([0, 0, 1]), rng.choice([0, 1, 2]), keep]
+        g.ops.append(op + [n] if (n or rng.random() < 0.5) else op)
         g.cos = 1
+        if g.coro and n: g.dirty = True
         if not keep: g.strong = 0
     for _ in range(rng.randint(0, 3)):
         g.spawn() if rng.random() < 0.6 else g.connect()
@@ -192,6 +198,19 @@ def boundary(cases):
     return cases
 
 
+def hookup_cases():
+    out = []
+    k = 0
+    for eng in ENG:
+        coro = eng.startswith("sgc")
+        for keep in (1, 0):
+            for n in ((0, 1, 2, 3) if not coro else ((0, 1) if keep else (0,))):
+                for (lim, pause, retry) in ((0, 0, 0), (2, 0, 1), (0, 1, 0), (1, 0, 0)):
+                    ops = [[9, 1, lim, pause, retry, keep, n]] + ([[5]] if coro else []) + [[2, 0, 1 if coro else 0, 7]] + ([[5]] if coro else [])
+                    out.append(close_case(Case(eng, "h%d" % k, ops))); k += 1
+    return out
+
+
 def overrun_cases():
     """the known finding: collector result discarded inside a coroutine, collector called again (or last handle dropped)
     before the driver suspends — listeners only queued, they read the later value / are cancelled"""
@@ -209,6 +228,7 @@ def gen(seed, tier):
     n = 400 if tier == "quick" else 5000
     cases = boundary([])
     cases += overrun_cases()
+    cases += hookup_cases()
     for i in range(n):
         eng = ENG[i % 4]
         cases.append(gen_random(rng, eng, "g%d" % i, rng.choice([4, 8, 12, 20, 30])))
@@ -238,7 +258,7 @@ def gen(seed, tier):
 
 def nontrivial(case, model_obs):
     if case.engine == "sg_stress":
-        return any(o and o[0] == 40 and len(o) == 5 and o[1] >= 1000 and o[2] >= 2 for o in case.ops)
+        return any(o and ((o[0] == 40 and len(o) == 5 and o[1] >= 1000 and o[2] >= 2) or (o[0] == 42 and len(o) == 3 and o[1] >= 1000)) for o in case.ops)
     if case.engine == "sx_i":
         # at least 3 thread switches in the executed trace and somebody was taken by an exchange
         tids = [l.split()[0] for l in model_obs if len(l.split()) == 2]
@@ -324,7 +344,19 @@ def gen_x(seed, tier):
         for (subs, acts) in cfgs:
             for pre in itertools.product(range(3), repeat=7):
                 cases.append(xmk("y%d" % j, subs, acts, pre)); j += 1
-    # malformed: no collector / two collectors
+    # hook-up listener + a collector thread that emits as soon as the registration function has handed it the collector
+    hk = 0
+    for acts in ([1, 0], [1, 1, 0], [0], [1], [1, 1, 1, 0]):
+        for order in ((0, 1), (1, 0)):
+            for _ in range(3 if tier == "quick" else 12):
+                L = rng.choice([0, 4, 8, 12, 20])
+                sched = [rng.randint(0, 3) for _ in range(L)]
+                cases.append(xmk("k%d" % hk, [(4, 0)], acts, sched, list(order))); hk += 1
+    if tier != "quick":
+        for pre in itertools.product(range(2), repeat=9):
+            cases.append(xmk("k%d" % hk, [(4, 0)], [1, 1, 0], pre)); hk += 1
+    # malformed: no collector / two collectors / hook-up with a third thread
+    cases.append(Case("sx_i", "bad2", [[1, 4, 0], [1, 0, 0], [2, 1, 0], [9, 0, 1]]))
     cases.append(Case("sx_i", "bad0", [[1, 0, 0], [9, 0, 0]]))
     cases.append(Case("sx_i", "bad1", [[2, 1, 0], [2, 1], [1, 0, 0], [9, 1]]))
     return cases
@@ -342,7 +374,10 @@ def gen_stress(seed, tier):
     for k, (per, n, mask, j) in enumerate(cfgs):
         per = per * mul + rng.randint(0, 999)
         cases.append(Case("sg_stress", "s%d" % k, [[40, min(per, 1000000), n, mask, j]]))
-    cases.append(Case("sg_stress", "sbad", [[40, 0, 3, 0, 0], [41, 5], [40, 10, 9, 0, 0]]))
+    # hook-up: the emitter thread emits as soon as the registration function has published the collector
+    for k, (it, j) in enumerate([(30000, 0), (30000, 20), (20000, 200)]):
+        cases.append(Case("sg_stress", "sh%d" % k, [[42, min(it * mul + rng.randint(0, 99), 1000000), j]]))
+    cases.append(Case("sg_stress", "sbad", [[40, 0, 3, 0, 0], [41, 5], [40, 10, 9, 0, 0], [42, 0, 0]]))
     return cases
 
 
